@@ -131,7 +131,10 @@ def cmp_weights(obs, model, ordered):
                 skipped["nonfinite_cells"] += 1
                 continue
             vx, vy = _num(x), _num(y)
-            if vx is None or vy is None or abs(vx - vy) > TOL_W:
+            # a weight far above 1 is a ratio with a total near zero (positions of opposite sign): float64 cancellation in
+            # the total is magnified by the same factor, so the tolerance is relative there (found by a thorough run:
+            # total 8e-8, weights +-606487.375, binary and model 4e-6 apart)
+            if vx is None or vy is None or abs(vx - vy) > TOL_W * max(1.0, abs(vy)):
                 return False
     return True
 
